@@ -416,7 +416,7 @@ class _Call:
     def __call__(self, item):
         try:
             return self.fn(_WSTATE, item)
-        except HarnessDied:
+        except (HarnessDied, OpPanicked):
             raise
         except Exception:
             raise RuntimeError("worker failed on item %r:\n%s" % (str(item)[:200], traceback.format_exc()))
